@@ -46,6 +46,8 @@
 -/
 import NxsModel.Worker
 import NxsModel.Lemmas.Worker
+import NxsModel.WorkerCycles
+import NxsModel.Lemmas.R7C13
 namespace Nxs.C13
 open Nxs.Worker Nxs.ThreadIR
 
@@ -422,5 +424,135 @@ example : ∃ s, Reach ⟨false, false⟩ s ∧ (fun s => s.started && inStart s
   reach_of_path (is := [0, 0, 0, 0, 0, 0, 0]) (by decide +kernel)
 example : ∃ s, Reach ⟨false, false⟩ s ∧ (fun s => !s.started && inStop s) s = true :=
   reach_of_path (is := [1]) (by decide +kernel)
+
+/-! ### Round 7: any number of start/stop cycles, on the observable trace
+
+    `Run c s tr` (`WorkerCycles.lean`) is `Reach c s` together with the chronological list `tr` of the
+    events of the run (`run_iff_reach`); `cnt e tr` is the number of occurrences of `e` in the WHOLE trace
+    (unsaturated, never reset).  `cnt .new tr` = number of `threading.Thread(...)` creations = number of
+    runs begun.  Proof: a trace monitor (`Mon`) is a pure fold over the trace; the product of the model with
+    the monitor cut off at 2 has 116 states per callback configuration, certified by the kernel
+    (`Lemmas/R7C13.lean: certM_??`); induction over `Run` lifts the per-run facts to totals over
+    unboundedly many cycles (`run_counts`). -/
+
+/-- a run with a trace is exactly a reachable state: every theorem above applies to the end state of a
+    `Run`, and every reachable state is the end of some `Run` -/
+theorem run_iff_reach {c : Cfg} {s : State} : (∃ tr, Run c s tr) ↔ Reach c s :=
+  ⟨fun ⟨_, h⟩ => h.reach, fun h => h.exists_run⟩
+
+/-- "init once per start, final once per stop", over ANY number of cycles and under any schedule: in
+    every state of every run, with `N` = number of worker threads created so far, the total number of init
+    calls lies between `N − 1` and `N` (times 1 if init was given, 0 if not), likewise final calls and
+    loop exits: all runs but possibly the current one are complete, and no run ever calls init / final
+    twice or exits twice -/
+theorem callbacks_counted_any_cycles {c : Cfg} {s : State} {tr : List Ev} (h : Run c s tr) :
+    expected c.hasInit * (cnt .new tr - 1) ≤ cnt .init tr ∧
+    cnt .init tr ≤ expected c.hasInit * cnt .new tr ∧
+    expected c.hasFinal * (cnt .new tr - 1) ≤ cnt .final tr ∧
+    cnt .final tr ≤ expected c.hasFinal * cnt .new tr ∧
+    cnt .new tr - 1 ≤ cnt .exit tr ∧ cnt .exit tr ≤ cnt .new tr := by
+  have h1 := run_counts h
+  have h2 := run_mon_facts h
+  generalize monOf tr = m at h1 h2
+  rcases m with ⟨ni, nf, ne, fr, st, bd⟩
+  rcases c with ⟨_ | _, _ | _⟩ <;> cases fr <;> simp [expected] at h1 h2 ⊢ <;> omega
+
+/-- whenever the worker is stopped (the last returned start/stop call was not `start`, no start call
+    in progress) — after ANY number `N` of start/stop cycles — init has been called exactly `N` times,
+    final exactly `N` times (0 for an absent callback) and exactly `N` worker loops have returned, where
+    `N` is the number of worker threads ever created: every cycle contributed exactly one init, one
+    final and one exit, none is outstanding -/
+theorem stopped_counts_exact {c : Cfg} {s : State} {tr : List Ev} (h : Run c s tr)
+    (hs : s.started = false) (hn : inStart s = false) :
+    cnt .init tr = expected c.hasInit * cnt .new tr ∧
+    cnt .final tr = expected c.hasFinal * cnt .new tr ∧
+    cnt .exit tr = cnt .new tr := by
+  have h1 := run_counts h
+  have h2 := run_mon_facts h
+  have hq : quiet s = true := by simp [quiet, hs, hn]
+  have h3 := fun hf => h2.2.2.2.2.2 hf (Or.inl hq)
+  have h4 := h2.2.2.2.2.1
+  generalize monOf tr = m at h1 h3 h4
+  rcases m with ⟨ni, nf, ne, fr, st, bd⟩
+  rcases c with ⟨_ | _, _ | _⟩ <;> cases fr <;> simp [expected] at h1 h3 h4 ⊢ <;> omega
+
+/-- a new worker thread is created only after the previous one is completely finished: at every
+    `threading.Thread(...)` step that is not the first, every earlier run has called init once, final
+    once (0 if absent) and its loop has returned -/
+theorem new_only_after_previous_run_complete {c : Cfg} {s : State} {tr : List Ev} (h : Run c s tr)
+    {p : Who × Ev × State} (hp : p ∈ stepL c s) (hnew : p.2.1 = Ev.new) :
+    cnt .init tr = expected c.hasInit * cnt .new tr ∧
+    cnt .final tr = expected c.hasFinal * cnt .new tr ∧
+    cnt .exit tr = cnt .new tr := by
+  have h1 := run_counts h
+  have h2 := run_mon_facts h
+  have h3 := fun hf => h2.2.2.2.2.2 hf (Or.inr ⟨p, hp, hnew⟩)
+  have h4 := h2.2.2.2.2.1
+  generalize monOf tr = m at h1 h3 h4
+  rcases m with ⟨ni, nf, ne, fr, st, bd⟩
+  rcases c with ⟨_ | _, _ | _⟩ <;> cases fr <;> simp [expected] at h1 h3 h4 ⊢ <;> omega
+
+/-- "once stop has returned the target is neither running nor ever called again until the next start", on
+    the trace and for every cycle: scanning the events of any run in order, from `__init__` resp. from each
+    return of `thread_stop` up to the next entry into `thread_start` there is no init / target / final call,
+    no thread creation, start or exit (`quietOk` is a function of the event list alone) -/
+theorem no_activity_while_stopped {c : Cfg} {s : State} {tr : List Ev} (h : Run c s tr) :
+    quietOk true tr = true := run_quietOk h
+
+/-- `quietOk` unfolded at one position: if the prefix `a` of a run's trace ends the stopped phase
+    (its last start/stop boundary event is a return of `thread_stop`, or there is none) then the next
+    event is not a callback call -/
+theorem quietOk_split (st : Bool) (a : List Ev) (e : Ev) (b : List Ev)
+    (h : quietOk st (a ++ e :: b) = true) (hst : a.foldl nextStopped st = true) :
+    e.isActivity = false := by
+  induction a generalizing st with
+  | nil =>
+    simp only [List.nil_append, quietOk, List.foldl_nil] at h hst
+    subst hst
+    simp only [Bool.true_and, Bool.and_eq_true, Bool.not_eq_true'] at h
+    exact h.1
+  | cons x xs ih =>
+    simp only [List.cons_append, quietOk, Bool.and_eq_true, List.foldl_cons] at h hst
+    exact ih _ h.2 hst
+
+/-- predicate of the next example -/
+def r7ex1 : State × List Ev → Bool := fun q =>
+        !q.1.started && !inStart q.1 && decide (q.1.ctl = .idle) && decide (cnt .new q.2 = 2) &&
+    decide (cnt .init q.2 = 2) && decide (cnt .target q.2 = 2) && decide (cnt .final q.2 = 2)
+
+/-- non-vacuity: two complete start/stop cycles with a target call in each (all callbacks given): the
+    end state is stopped, two threads were created, init / target / final were called twice in all -/
+example : ∃ s tr, Run ⟨true, true⟩ s tr ∧ r7ex1 (s, tr) = true :=
+  run_of_path (is := [0,0,0,0,0,0,1,0,1,1,1,0,1,1,1,1,1,0,0,0,0,
+                      0,0,0,0,0,0,1,0,1,1,1,0,1,1,1,1,1,0,0,0,0]) (by decide +kernel)
+
+/-- predicate of the next example -/
+def r7ex2 : State × List Ev → Bool := fun q =>
+        decide (cnt .new q.2 = 1) && (stepL ⟨true, true⟩ q.1).any fun p => decide (p.2.1 = Ev.new)
+
+/-- non-vacuity: the second `threading.Thread(...)` step (hypothesis of
+    `new_only_after_previous_run_complete` with one earlier run) -/
+example : ∃ s tr, Run ⟨true, true⟩ s tr ∧ r7ex2 (s, tr) = true :=
+  run_of_path (is := [0,0,0,0,0,0,1,0,1,1,1,0,1,1,1,1,1,0,0,0,0, 0,0,0]) (by decide +kernel)
+
+/-- predicate of the next example -/
+def r7ex3 : State × List Ev → Bool := fun q =>
+        q.1.started && decide (cnt .new q.2 = 2) && decide (cnt .init q.2 = 2) &&
+    decide (cnt .final q.2 = 1) && decide (cnt .exit q.2 = 1)
+
+/-- non-vacuity: mid-run (second worker running, has called init, not final): the bounds of
+    `callbacks_counted_any_cycles` are strict there — 2 threads, 2 init calls, 1 final call -/
+example : ∃ s tr, Run ⟨true, true⟩ s tr ∧ r7ex3 (s, tr) = true :=
+  run_of_path (is := [0,0,0,0,0,0,1,0,1,1,1,0,1,1,1,1,1,0,0,0,0, 0,0,0,0,0,0,3,3]) (by decide +kernel)
+
+/-- predicate of the next example -/
+def r7ex4 : State × List Ev → Bool := fun q =>
+        !q.1.started && !inStart q.1 && decide (cnt .new q.2 = 3) && decide (cnt .init q.2 = 0) &&
+    decide (cnt .final q.2 = 0) && decide (cnt .exit q.2 = 3)
+
+/-- non-vacuity without callbacks: three cycles, no init / final call at all, three exits -/
+example : ∃ s tr, Run ⟨false, false⟩ s tr ∧ r7ex4 (s, tr) = true :=
+  run_of_path (is := [0,0,0,0,0,0,1,0,0,0,1,1,1,1,0,0,0, 0,0,0,0,0,0,1,0,0,0,1,1,1,1,0,0,0,
+                      0,0,0,0,0,0,1,0,0,0,1,1,1,1,0,0,0]) (by decide +kernel)
 
 end Nxs.C13
